@@ -540,7 +540,14 @@ static void apply_op(State& st, uint64_t acc, uint64_t a, uint64_t b, size_t opi
     VCHECK(w <= st.n, cat("cursor-past-end:", name), name, " left the cursor at ", w, " of ", st.n, ctxt());
   }
   if (sane && check_cur) {
-    VCHECK(w == exp_cur, cat("cursor:", name), name, " left the cursor at ", w, ", expected ", exp_cur, ctxt());
+    if (acc == A_TRUNCATE) {
+      // The statement does not say where the cursor is after truncate(): leaving it where it was (possibly beyond the
+      // new end, like go()) and pulling it back inside the shortened data are both fine; what truncate() may not do is
+      // put a cursor that it moves beyond the end. The model continues from wherever the cursor is.
+      VCHECK(w == exp_cur || w <= st.n, cat("cursor:", name), name, " moved the cursor from ", exp_cur, " to ", w, " which is beyond the new end ", st.n, ctxt());
+    } else {
+      VCHECK(w == exp_cur, cat("cursor:", name), name, " left the cursor at ", w, ", expected ", exp_cur, ctxt());
+    }
   }
   st.cur = w;
   VCHECK(r.size() == st.n, "size-changed", "size() is ", r.size(), " expected ", st.n, ctxt());
